@@ -167,7 +167,7 @@ pub fn for_each_input(fam: &Family<'_>, tier: Tier, f: &mut dyn FnMut(u64, &'sta
     for c in fam.canaries {
         g.emit("canary", c);
     }
-    let stride = tier.pick(4, 1);
+    let tier_stride = tier.pick(4, 1);
     let mut hostile: Vec<u8> = HOSTILE.to_vec();
     for b in fam.extra_bytes {
         if !hostile.contains(b) {
@@ -178,6 +178,9 @@ pub fn for_each_input(fam: &Family<'_>, tier: Tier, f: &mut dyn FnMut(u64, &'sta
         if g.stopped {
             break;
         }
+        // short seeds (identifiers, URIs, header values, patterns) get every position in both tiers:
+        // the whole point of those parsers is what happens at one particular byte
+        let stride = if seed.len() <= 96 { 1 } else { tier_stride };
         let offset = si % stride;
         match fam.kind {
             Kind::Json | Kind::Bytes => byte_level(&mut g, seed, stride, offset, &hostile),
